@@ -93,7 +93,10 @@ func init() {
 			st.addFeatures(g.features)
 			// a context with 1..3 holes
 			nrefs := 1 + r.Intn(3)
-			ctxKind := r.Intn(6)
+			ctxKind := r.Intn(9)
+			if ctxKind >= 6 && nrefs == 1 {
+				nrefs = 2 + r.Intn(2)
+			}
 			ctxLit := quote(g.litString())
 			mk := func(ref func(k int) string) string {
 				refs := []string{}
@@ -111,6 +114,14 @@ func init() {
 					return "(" + strings.Join(refs, ") or (") + ") or 'z'"
 				case 4:
 					return "exactly 2 (" + refs[0] + " maybe ',') " + strings.Join(refs[1:], " ")
+				// the FIRST reference stands where no code is generated for it (a loop that runs zero times); the later
+				// ones must still mean the body
+				case 6:
+					return "exactly 0 (" + refs[0] + ") " + ctxLit + " " + strings.Join(refs[1:], " ")
+				case 7:
+					return ctxLit + " at most 0 (" + refs[0] + " " + ctxLit + ") " + strings.Join(refs[1:], " ")
+				case 8:
+					return "between 0 and 0 " + refs[0] + " " + strings.Join(refs[1:], " ") + " " + ctxLit
 				default:
 					return "maybe (" + refs[0] + ") between 2 and 3 (" + strings.Join(refs, " ") + ")"
 				}
@@ -123,6 +134,11 @@ func init() {
 				return "s"
 			})
 			global := "set s to pattern " + body + "\nfind all " + mk(func(k int) string { return "s" })
+			if ctxKind >= 6 {
+				// an inline definition inside a loop that runs zero times defines nothing (by construction of the
+				// language): only the global spelling has a first reference there
+				inline = global
+			}
 			st.Features[fmt.Sprintf("ctx-%d", ctxKind)]++
 			st.Features[fmt.Sprintf("refs-%d", nrefs)]++
 			text := GenText(r, g.lits, 16)
